@@ -62,15 +62,16 @@ CONFIG = {
                        "empty diagonal; see C03) and (symbolic N, intermediate assertions on the real HalfRotobjVoronoi._calculate_N_N_array, three loop "
                        "invariants): (p1) the antipode map built by the first loop is total, map[d] = d +- N for every d < 2N (this is "
                        "the obligation finding F1 violated: `if opp_ind:` on array([0])); (p2) after the in-place fold every entry is "
-                       "a[i][c] = a[i][opp c] = A(i,lo) if non-zero else A(i,hi) for the pair {c, opp c}; lemmas: the folded upper block "
+                       "a[i][c] = a[i][opp c] = A(i,lo) if non-zero else A(i,hi) for the pair {c, opp c}; (p3) the NaN-mask extraction returns exactly the "
+                       "N x N upper-left block of the folded matrix (rows / columns without NaN are proved to be the indices below N); lemmas: the folded upper block "
                        "is symmetric when the full-sphere matrix is symmetric and centrally symmetric; the distance rule min(theta, "
                        "pi - theta) is the minimum over sign. Bounded (the geometric claim): adjacency <=> shared 2-D face, border = "
                        "face area, distance, against a Qhull-free oracle on S^3 (exact dual-face clipping + hull-edge LP), cube4D and "
                        "randomQ, every N in 4..24 (quick) / 4..80 (thorough), every signed pair; fold and extraction on the real arrays.",
         "trusted_base": [NUMPY, "ASSUMED (post-condition of C07, proved there for the layout): the double cover is [G; -G] exactly and its rows are "
                          "pairwise not isclose; upper indices are 0..N-1", "np.isclose / np.all(axis=1) / np.nonzero contracts; symbolic dict model"],
-        "assumptions": ["the NaN-mask extraction of the upper block (p3) and everything Qhull computes are bounded only; nothing is claimed for N "
-                        "beyond the bound"],
+        "assumptions": ["everything Qhull computes is bounded only; nothing geometric is claimed for N beyond the bound",
+                        "the full-sphere matrix has no NaN entries (precondition of the extraction step)"],
     },
     "C06": {
         "level": "other", "proof": True, "rtc": True,
